@@ -80,7 +80,9 @@ class Engine(EngineBase):
 
     def generate(self, rng, tier):
         knobs = {"listing": rng.choice(["shuffle", "sorted", "reverse"]), "chunk": rng.choice(["none", "split2"]),
-                 "clock": "inc", "pool": rng.randrange(1, 5), "policy": rng.choice(["random", "pct"])}
+                 "clock": "inc", "pool": rng.randrange(1, 5), "policy": rng.choice(["random", "pct"]),
+                 # the documented configuration key for the cache-miss warning (None: not set)
+                 "miss_threshold": rng.choice([None, None, None, 1, 3, 500])}
         n = rng.randrange(5, 40)
         pool = [gen_sp(rng) for _ in range(8)]
         ops = []
@@ -138,6 +140,11 @@ class Run:
         self.sc, self.world, self.signac = sc, world, signac
         self.pp = world.p("proj")
         self.proj = signac.init_project(self.pp)
+        if sc["knobs"].get("miss_threshold") is not None:
+            with world.observing():
+                with O.io_open(os.path.join(self.pp, ".signac", "config"), "ab") as f:
+                    f.write(b"statepoint_cache_miss_warning_threshold = %d\n" % sc["knobs"]["miss_threshold"])
+            self.proj = signac.Project(self.pp)
         # a second long-lived session on the same project (its in-memory cache goes stale independently)
         self.sessions = [self.proj, signac.Project(self.pp)]
         self.model = {}
@@ -354,12 +361,22 @@ class Run:
         try:
             proj = proj or self.signac.Project(self.pp)
             out = {"ids": sorted(j.id for j in proj), "len": len(proj)}
-            sps = {}
-            for jid in sorted(self.model):
-                sps[jid] = canon(proj.open_job(id=jid).statepoint())
-            out["sps"] = sps
-            for i, f in enumerate(FILTERS):
-                out[f"find{i}"] = sorted(j.id for j in proj.find_jobs(f))
+
+            def by_id():
+                sps = {}
+                for jid in sorted(self.model):
+                    sps[jid] = canon(proj.open_job(id=jid).statepoint())
+                out["sps"] = sps
+
+            def queries():
+                for i, f in enumerate(FILTERS):
+                    out[f"find{i}"] = sorted(j.id for j in proj.find_jobs(f))
+
+            # opening every job by id fills the session's memory, after which the queries never miss the
+            # cache: the two halves therefore come in either order
+            first, second = (by_id, queries) if (self.executed + len(label)) % 2 else (queries, by_id)
+            first()
+            second()
             out["contains"] = {j: proj.open_job(self.ever[j]) in proj for j in sorted(self.ever)}
             pre = {}
             for p in self._prefixes():
